@@ -32,6 +32,7 @@ type Engine struct {
 	built      map[*ssa.Package]bool
 	nonNilGlobals map[*ssa.Global]bool
 	applyModel    int // 0 unknown, 1 messages applied only when accepted, 2 applied in every state
+	encap         *encapState
 }
 
 // ensureBuilt builds the SSA of allow-listed dependency packages on demand so
@@ -217,6 +218,12 @@ func (e *Engine) verifyContract(ct *Contract) (x *Exec, err error) {
 		args = append(args, v)
 		names[p.Name()] = v
 	}
+	for _, fa := range ct.Forall {
+		v := freshVal(x.c, "forall_"+fa.Name, ghostType(fa.Type))
+		names[fa.Name] = v
+		x.forallVals = append(x.forallVals, v)
+		x.cexBase = append(x.cexBase, CexTerm{"forall." + fa.Name, v.L[0]})
+	}
 	pkg := e.typesPkg(ct.PkgPath)
 	env := &specEnv{x: x, names: names, st: st0, old: st0, pkg: pkg, sig: fn.Signature}
 	for i, p := range fn.Params {
@@ -231,6 +238,9 @@ func (e *Engine) verifyContract(ct *Contract) (x *Exec, err error) {
 		g := x.evalBool(cl.Expr, env, TTrue)
 		reqs = append(reqs, g)
 		x.c.Assume(g)
+		if cl.Kind == "typeinv" {
+			x.c.Note("representation invariant assumed, not checked at call sites: %s: %s", ct.Name, cl.Text)
+		}
 	}
 	x.specDepth--
 	x.nReq = len(x.c.Assumes)
@@ -257,7 +267,7 @@ func (e *Engine) verifyContract(ct *Contract) (x *Exec, err error) {
 					cex = append(cex, x.cexOf("out."+p.Name(), args[i], r.st, 1)...)
 				}
 			}
-			x.addObl(name, "ensures", cl.Text, clauseProps(cl, ct), OblPart{NegGoal: And(r.reach, Not(g)), NAssume: len(x.c.Assumes), Where: fmt.Sprintf("return #%d", ri), Cex: cex}, false)
+			x.addObl(name, "ensures", cl.Text, clauseProps(cl, ct), OblPart{NegGoal: And(r.reach, Not(g)), NAssume: len(x.c.Assumes), Where: fmt.Sprintf("return #%d %s", ri, r.pos), Cex: cex}, false)
 			if cl.Kind == "refute" {
 				x.obls[name].Search = true
 			}
@@ -334,8 +344,16 @@ func (x *Exec) frameObligations(ct *Contract, fn *ssa.Function, env *specEnv, en
 		whole bool
 	}
 	covered := map[string]*cov{}
+	// map entries named by the assigns clause: map type key -> (map ref, key) pairs
+	type mapEntry struct{ ref, key Term }
+	coveredMap := map[string][]mapEntry{}
 	x.specDepth++
 	for _, a := range ct.Assigns {
+		if mt, ref, key, ok := x.mapIndexTarget(a, env); ok {
+			tk := "map:" + typeKey(mt) + "|"
+			coveredMap[tk] = append(coveredMap[tk], mapEntry{ref, key})
+			continue
+		}
 		addr, ok := x.evalAddr(a, env)
 		if !ok || addr.Kind != addrObj {
 			eff := newEffects()
@@ -367,8 +385,36 @@ func (x *Exec) frameObligations(ct *Contract, fn *ssa.Function, env *specEnv, en
 	var frameViol []Term
 	var frameKeys []string
 	for _, k := range keys {
-		if strings.HasPrefix(k, "slice:") || strings.HasPrefix(k, "map:") {
-			continue // backing stores are not framed (noted)
+		if strings.HasPrefix(k, "map:") {
+			// maps existing at entry change only at the entries named by the assigns clause
+			srt := x.reg.sorts[k]
+			before := x.heapGet(entry, k, srt)
+			after := r.st.heap[k]
+			if before.S == after.S {
+				continue
+			}
+			if c := covered[k]; c != nil && c.whole {
+				continue
+			}
+			ks, inner := arrSorts(srt)
+			if ks != SRef {
+				continue
+			}
+			kk, _ := arrSorts(inner)
+			rr := x.c.Fresh("frame_m", SRef)
+			fk := x.c.Fresh("frame_k", kk)
+			conds := []Term{Op("bvult", SBool, rr, x.c.Named("ctr0", SRef)), Not(Eq(rr, BVLit(0, 32)))}
+			tk := k[:strings.Index(k, "|")+1]
+			for _, me := range coveredMap[tk] {
+				conds = append(conds, Not(And(Eq(rr, me.ref), Eq(fk, me.key))))
+			}
+			conds = append(conds, Not(Eq(Select(Select(before, rr), fk), Select(Select(after, rr), fk))))
+			frameViol = append(frameViol, x.c.Define("frame", And(conds...)))
+			frameKeys = append(frameKeys, k)
+			continue
+		}
+		if strings.HasPrefix(k, "slice:") {
+			continue // slice backing stores are not framed (noted)
 		}
 		srt := x.reg.sorts[k]
 		ks, _ := arrSorts(srt)
